@@ -37,11 +37,13 @@ struct ListCase {
     fault: usize,
     max_keys: usize,
     big: usize, // if > 0: bucket of this many plain objects instead of objs
+    /// index into s3sim::FRAMINGS (how the listing body is framed on the wire)
+    framing: usize,
 }
 
 impl ListCase {
     fn json(&self) -> Value {
-        json!({"op": "list", "realtime": self.realtime, "objs": self.objs.iter().map(|o| json!([o.0, o.1, o.2])).collect::<Vec<_>>(), "fault": LIST_FAULTS[self.fault], "max_keys": self.max_keys, "big": self.big, "split": self.split})
+        json!({"op": "list", "realtime": self.realtime, "objs": self.objs.iter().map(|o| json!([o.0, o.1, o.2])).collect::<Vec<_>>(), "fault": LIST_FAULTS[self.fault], "max_keys": self.max_keys, "big": self.big, "split": self.split, "framing": self.framing})
     }
 }
 
@@ -237,14 +239,18 @@ struct GetCase {
     size: usize,
     status: u16,
     lm: usize,
-    short_body: bool,
+    /// 0 = the whole body arrives; k > 0 = the transfer dies after (1: half, 2: all but one, 3: none
+    /// of) the body although the framing promised all of it (full Content-Length / no last chunk)
+    short_body: u8,
     /// 0 = one write; k = body delivered in k+1 TCP writes
     split: usize,
+    /// index into s3sim::FRAMINGS: Content-Length, chunked (1000- and 7-byte chunks), close-delimited
+    framing: usize,
 }
 
 impl GetCase {
     fn json(&self) -> Value {
-        json!({"op": "get", "realtime": self.realtime, "name": self.name, "size": self.size, "status": self.status, "last_modified": LM_FORMS[self.lm], "short_body": self.short_body, "split": self.split})
+        json!({"op": "get", "realtime": self.realtime, "name": self.name, "size": self.size, "status": self.status, "last_modified": LM_FORMS[self.lm], "short_body": self.short_body, "split": self.split, "framing": self.framing})
     }
 }
 
@@ -284,7 +290,7 @@ fn check_get(ctx: &Ctx, sim: &Sim, rt: &tokio::runtime::Runtime, c: &GetCase, st
     {
         let log = log.clone();
         let data = data.clone();
-        let (status, lm, short, split) = (c.status, c.lm, c.short_body, c.split);
+        let (status, lm, short, split, framing) = (c.status, c.lm, c.short_body, c.split, FRAMINGS[c.framing % FRAMINGS.len()]);
         sim.set_handler(Box::new(move |req| {
             let mut l = log.lock().unwrap_or_else(|e| e.into_inner());
             l.requests.push(req.raw().to_string());
@@ -302,8 +308,10 @@ fn check_get(ctx: &Ctx, sim: &Sim, rt: &tokio::runtime::Runtime, c: &GetCase, st
                 2 => r = r.header("Last-Modified", "yesterday at noon"),
                 _ => {}
             }
-            if short && !r.body.is_empty() {
-                r.declared_len = Some(r.body.len() + 10);
+            r.framing = Some(framing);
+            if short > 0 && !r.body.is_empty() {
+                let n = r.body.len();
+                r.truncate_at = Some(match short { 1 => n / 2, 2 => n - 1, _ => 0 });
             }
             if split > 0 && r.body.len() > 1 {
                 let n = r.body.len();
@@ -370,7 +378,7 @@ fn check_get(ctx: &Ctx, sim: &Sim, rt: &tokio::runtime::Runtime, c: &GetCase, st
         Caught::Ret(Got::Err(e)) => {
             st.outcome("err");
             let chunk_shaped = !c.realtime || c.size >= 6;
-            if c.status == 200 && !c.short_body && chunk_shaped {
+            if c.status == 200 && c.short_body == 0 && chunk_shaped {
                 ctx.fail(&format!("{api}:error_on_successful_download:name={name_cls}"), || format!("{:?}: {e}", c), wit);
             }
             if c.status == 404 && !e.contains("S3ObjectNotFoundError") {
@@ -432,7 +440,7 @@ pub fn run(ctx: &'static Ctx) -> (&'static str, Value, Vec<&'static str>) {
                 }
                 let mks: Vec<usize> = if realtime { if fault == 0 { vec![1, 2, 100] } else { vec![100] } } else { vec![0] };
                 for mk in mks {
-                    lists.push(ListCase { split: 0, realtime, objs: objs.clone(), fault, max_keys: mk, big: 0 });
+                    lists.push(ListCase { split: 0, realtime, objs: objs.clone(), fault, max_keys: mk, big: 0, framing: 0 });
                 }
             }
         }
@@ -440,7 +448,7 @@ pub fn run(ctx: &'static Ctx) -> (&'static str, Value, Vec<&'static str>) {
     for big in [999usize, 1000, 1001] {
         for realtime in [false, true] {
             for fault in [0usize, 1] {
-                lists.push(ListCase { split: 0, realtime, objs: vec![(0, 1, true)], fault, max_keys: if realtime { 100 } else { 0 }, big });
+                lists.push(ListCase { split: 0, realtime, objs: vec![(0, 1, true)], fault, max_keys: if realtime { 100 } else { 0 }, big, framing: 0 });
             }
         }
     }
@@ -449,13 +457,24 @@ pub fn run(ctx: &'static Ctx) -> (&'static str, Value, Vec<&'static str>) {
     for realtime in [false, true] {
         for objs in [vec![(4usize, 1usize, true), (5, 2, false)], vec![(5, 0, true)], vec![(4, 3, false), (0, 1, true), (5, 1, true)]] {
             for split in (1..=12).chain([101, 105, 120, 160]) {
-                lists.push(ListCase { split, realtime, objs: objs.clone(), fault: 0, max_keys: 100, big: 0 });
+                lists.push(ListCase { split, realtime, objs: objs.clone(), fault: 0, max_keys: 100, big: 0, framing: 0 });
             }
         }
     }
-    lists.push(ListCase { split: 4, realtime: false, objs: vec![(5, 1, true)], fault: 0, max_keys: 0, big: 600 });
+    lists.push(ListCase { split: 4, realtime: false, objs: vec![(5, 1, true)], fault: 0, max_keys: 0, big: 600, framing: 0 });
+    // body framing: the same listings delivered with chunked transfer encoding (which is what S3
+    // itself uses for listings) and close-delimited
+    let reframed: Vec<ListCase> = lists
+        .iter()
+        .enumerate()
+        .filter(|(i, c)| i % 5 == 1 || c.big > 0 || c.split > 0)
+        .flat_map(|(_, c)| (1..FRAMINGS.len()).map(move |f| ListCase { framing: f, ..c.clone() }))
+        .collect();
+    lists.extend(reframed);
     for (i, c) in lists.iter().enumerate() {
+        set_default_framing(FRAMINGS[c.framing % FRAMINGS.len()]);
         check_list(ctx, &sim, &rt, c, &mut stats);
+        set_default_framing(Framing::Length);
         stats.dim("list_fault", LIST_FAULTS[c.fault]);
         stats.dim("list_objects", if c.big > 0 { c.big } else { c.objs.len() });
         stats.dim("api", if c.realtime { "list_chunks_in_volume" } else { "list_files" });
@@ -475,17 +494,28 @@ pub fn run(ctx: &'static Ctx) -> (&'static str, Value, Vec<&'static str>) {
             for &size in &sizes {
                 for &status in &STATUSES {
                     for lm in 0..4 {
-                        for short_body in [false, true] {
-                            if short_body && (status != 200 || lm != 0) {
+                        for short_body in 0..=3u8 {
+                            if short_body > 0 && (status != 200 || lm != 0) {
                                 continue;
                             }
                             if !thorough && name > 0 && size > 6 && status != 200 && status != 404 {
                                 continue;
                             }
-                            gets.push(GetCase { realtime, name, size, status, lm, short_body, split: 0 });
-                            if status == 200 && lm == 0 && !short_body && size > 1 && name < 2 {
+                            gets.push(GetCase { realtime, name, size, status, lm, short_body, split: 0, framing: 0 });
+                            if status == 200 && lm == 0 && short_body == 0 && size > 1 && name < 2 {
                                 for split in [1usize, 3] {
-                                    gets.push(GetCase { realtime, name, size, status, lm, short_body, split });
+                                    gets.push(GetCase { realtime, name, size, status, lm, short_body, split, framing: 0 });
+                                }
+                            }
+                            // the other body framings (chunked, close-delimited), with and without
+                            // a transfer that dies part-way
+                            if (status == 200 || status == 404 || status == 500) && lm == 0 && name < 2 {
+                                for framing in 1..FRAMINGS.len() {
+                                    // a close-delimited body that is cut short is indistinguishable from a shorter object
+                                    if short_body > 0 && FRAMINGS[framing] == Framing::Close {
+                                        continue;
+                                    }
+                                    gets.push(GetCase { realtime, name, size, status, lm, short_body, split: if size > 6 { 2 } else { 0 }, framing });
                                 }
                             }
                         }
@@ -495,15 +525,17 @@ pub fn run(ctx: &'static Ctx) -> (&'static str, Value, Vec<&'static str>) {
         }
     }
     if !thorough {
-        gets.push(GetCase { realtime: false, name: 0, size: 2 << 20, status: 200, lm: 0, short_body: false, split: 0 });
-        gets.push(GetCase { realtime: true, name: 0, size: 2 << 20, status: 200, lm: 0, short_body: false, split: 2 });
+        gets.push(GetCase { realtime: false, name: 0, size: 2 << 20, status: 200, lm: 0, short_body: 0, split: 0, framing: 0 });
+        gets.push(GetCase { realtime: false, name: 0, size: 2 << 20, status: 200, lm: 0, short_body: 1, split: 0, framing: 0 });
+        gets.push(GetCase { realtime: true, name: 0, size: 2 << 20, status: 200, lm: 0, short_body: 0, split: 0, framing: 1 });
+        gets.push(GetCase { realtime: true, name: 0, size: 2 << 20, status: 200, lm: 0, short_body: 0, split: 2, framing: 0 });
     }
     for (i, c) in gets.iter().enumerate() {
         check_get(ctx, &sim, &rt, c, &mut stats);
         stats.dim("get_status", c.status);
         stats.dim("get_size", c.size);
         stats.dim("api", if c.realtime { "download_chunk" } else { "download_file" });
-        if c.status != 200 || c.lm != 0 || c.short_body {
+        if c.status != 200 || c.lm != 0 || c.short_body > 0 {
             stats.nontrivial(format!("{:?}", c).as_bytes());
         }
         if i % 397 == 11 {
@@ -512,7 +544,7 @@ pub fn run(ctx: &'static Ctx) -> (&'static str, Value, Vec<&'static str>) {
     }
     stats.count("download_scenarios", gets.len() as u64);
     let cov = stats.coverage(
-        "listings: bucket contents = all lists of 0..=2 objects (thorough: all triples; quick: every 7th) over a 10-name alphabet {plain, &, <>, quotes, é, 日本, 900-char, nested sub/NAME, ]]>, space} x 4 sizes (0, 1, 2^32, 2^64-1) x timestamp forms, plus near-miss keys that must be filtered, plus 999/1000/1001-object buckets; both listing entry points; max-keys {1,2,100}; response menu {normal, IsTruncated=true, size abc / -1 / 2^64, garbled XML, two element orders, empty body, and three equivalent serialisations of the same listing: pretty-printed with whitespace text nodes, numeric character references, extra <Owner>/<ChecksumAlgorithm> child elements}; transport fragmentation: listing bodies delivered in two TCP writes cut at every continuation byte of the first non-ASCII characters and near the end, download bodies in 2 and 4 writes. downloads: names x sizes {0,1,6,4 KiB[,2 MiB]} x status {200,204,206,400,403,404,500,503} x Last-Modified {present, absent, malformed} x short body. non-trivial = scenario with a fault / non-200 / >=2 objects",
+        "listings: bucket contents = all lists of 0..=2 objects (thorough: all triples; quick: every 7th) over a 10-name alphabet {plain, &, <>, quotes, é, 日本, 900-char, nested sub/NAME, ]]>, space} x 4 sizes (0, 1, 2^32, 2^64-1) x timestamp forms, plus near-miss keys that must be filtered, plus 999/1000/1001-object buckets; both listing entry points; max-keys {1,2,100}; response menu {normal, IsTruncated=true, size abc / -1 / 2^64, garbled XML, two element orders, empty body, and three equivalent serialisations of the same listing: pretty-printed with whitespace text nodes, numeric character references, extra <Owner>/<ChecksumAlgorithm> child elements}; transport fragmentation: listing bodies delivered in two TCP writes cut at every continuation byte of the first non-ASCII characters and near the end, download bodies in 2 and 4 writes. downloads: names x sizes {0,1,6,4 KiB[,2 MiB]} x status {200,204,206,400,403,404,500,503} x Last-Modified {present, absent, malformed} x transfer that dies after half / all but one / none of the body x body framing {Content-Length, chunked 1000, chunked 7, close-delimited}. non-trivial = scenario with a fault / non-200 / >=2 objects",
         true,
         json!({"list_faults": LIST_FAULTS, "statuses": STATUSES}),
     );
@@ -540,9 +572,12 @@ pub fn replay(ctx: &'static Ctx, case: &Value) {
                 fault: LIST_FAULTS.iter().position(|f| Some(*f) == case["fault"].as_str()).unwrap_or(0),
                 max_keys: case["max_keys"].as_u64().unwrap_or(100) as usize,
                 big: case["big"].as_u64().unwrap_or(0) as usize,
+                framing: case["framing"].as_u64().unwrap_or(0) as usize,
                 split: case["split"].as_u64().unwrap_or(0) as usize,
             };
+            set_default_framing(FRAMINGS[c.framing % FRAMINGS.len()]);
             check_list(ctx, &sim, &rt, &c, &mut st);
+            set_default_framing(Framing::Length);
             println!("replay list {:?} -> {:?}", c, st.outcomes);
         }
         Some("get") => {
@@ -552,7 +587,8 @@ pub fn replay(ctx: &'static Ctx, case: &Value) {
                 size: case["size"].as_u64().unwrap_or(0) as usize,
                 status: case["status"].as_u64().unwrap_or(200) as u16,
                 lm: LM_FORMS.iter().position(|f| Some(*f) == case["last_modified"].as_str()).unwrap_or(0),
-                short_body: case["short_body"].as_bool().unwrap_or(false),
+                short_body: case["short_body"].as_u64().unwrap_or(0) as u8,
+                framing: case["framing"].as_u64().unwrap_or(0) as usize,
                 split: case["split"].as_u64().unwrap_or(0) as usize,
             };
             check_get(ctx, &sim, &rt, &c, &mut st);
